@@ -13,7 +13,7 @@ PROPS = {
         "rule": "rapid-generated nodes built with the engine's own mutators (leaf: 0..9 cells, values 0..400 bytes of three byte patterns, "
                 "any tombstone subset, all sibling flag/offset combinations, any LSN/offset, optional post-split halves; internal: 0..290 cells, optional split) "
                 "plus an exhaustive sweep of all leaf shapes with <=3 cells x sizes {0,1,400} x tombstones x flags (shard 0). "
-                "A leaf read back must also behave like the page written: the same update applied to it must give the expected page, also after another write + read. Non-trivial: leaf with a tombstone and a sibling flag, or a node at (max-1..max) occupancy with a maximum-size value / internal node with >=289 cells; "
+                "A leaf read back must also behave like the page written: the same update applied to it must give the expected page, also after another write + read. An update the page refuses must leave it unchanged. Non-trivial: leaf with a tombstone and a sibling flag, or a node at (max-1..max) occupancy with a maximum-size value / internal node with >=289 cells; "
                 "distinct by canonical case JSON (FNV-64).",
         "assumptions": ["keys arrive in ascending order (the engine's shared counter), so the offset array is the identity; non-identity offset arrays are not generated"],
         "technique": "property-based testing (rapid): generated nodes, encode/decode round-trip + file-store round-trip + idempotence oracle; bounded-exhaustive small shapes",
@@ -44,7 +44,7 @@ PROPS["C02"] = {
             "(never / always / random subset / only after DDL), each segment ended by process death (stores abandoned, nothing flushed) or clean shutdown; "
             "in segment 0 a crash image (copy of data file and log) is taken after EVERY statement and recovered with the real InitStorage; every image and every "
             "segment end is recovered twice and compared (value sequences, stable never-reused row ids, catalog) with the model at that statement boundary; later segments run on the recovered files. "
-            "Low-rate profile 'deep tree': a 1100-1500 row bulk load (three tree levels), then inserts/deletes/updates of the most recent rows before the crash points. One segment in four is interleaved with statements that are invalid on purpose (they must be refused and leave no trace, also in later recoveries). Non-trivial: some crash point had both flushed and log-only acknowledged changes (dirty pages present after an earlier flush) and the case contains UPDATE or DELETE; distinct by case JSON.",
+            "Low-rate profile 'deep tree': a 1100-1500 row bulk load (three tree levels), then inserts/deletes/updates of the most recent rows before the crash points. One segment in four is interleaved with statements that are invalid on purpose (they must be refused and leave no trace, also in later recoveries). The refused statements also include CREATE TABLEs (existing table; a column the catalog cannot record). Non-trivial: some crash point had both flushed and log-only acknowledged changes (dirty pages present after an earlier flush) and the case contains UPDATE or DELETE; distinct by case JSON.",
     "technique": "fault injection by enumeration of crash points per generated history (rapid), recovery compared with a reference model",
     "level_text": "For every generated history all between-statement crash points of the first segment plus every segment end are enumerated and recovered with the real recovery code, under generated flush placements and repeated crash/recover cycles. Exhaustive per history, random over histories.",
     "level_note": "Crash = process death: every completed write is in the files (mkdb never fsyncs the data file, so this is the strongest model the code could meet). Flush timer replaced by explicit generated flushes (VerifFlush is the timer's tick). Trusted: reference model, image copy.",
@@ -85,7 +85,7 @@ PROPS["C10"] = {
     "rule": "rapid-generated statement trees over the whole supported grammar (SELECT with <=3 joins, OR-of-AND conditions, aggregates with GROUP BY, ORDER BY <=6 keys, LIMIT/OFFSET in both orders; multi-row INSERT, UPDATE, DELETE, CREATE TABLE/DATABASE, USE, SHOW DATABASE[S]), "
             "each rendered twice with independent layout choices (keyword case, spaces/tabs/newlines, optional INNER/AS/ASC, delimited identifiers, trailing semicolon) and parsed by the real scanner+parser; "
             "both parses must equal, structurally (canonical printer over the sql AST), the AST the tree denotes. Plus exhaustively (shard 0): all 63 OR/AND shapes with <=6 comparisons x all 2^n valuations in 6 clause contexts, "
-            "evaluated over the parsed AST by an independent evaluator against 'AND binds tighter than OR'. One identifier in twelve is a keyword / blank-containing / dotted / digit-led name (written delimited) or a name in another script (also written bare). Names beginning or ending with a keyword (order_id, t_select, Database_Name); string literals with typographic quotes, back-ticks, no-break spaces. Non-trivial: >=2 clauses beyond FROM, or a list with >=3 elements, or a condition mixing AND and OR; distinct by tree JSON.",
+            "evaluated over the parsed AST by an independent evaluator against 'AND binds tighter than OR'. One identifier in twelve is a keyword / blank-containing / dotted / digit-led name (written delimited) or a name in another script (also written bare). Names beginning or ending with a keyword (order_id, t_select, Database_Name); string literals with typographic quotes, back-ticks, no-break spaces. Each case carries 0-3 texts that are not statements, parsed before and between the renderings (a refusal must leave nothing behind in the parser). Non-trivial: >=2 clauses beyond FROM, or a list with >=3 elements, or a condition mixing AND and OR; distinct by tree JSON.",
     "technique": "grammar-based property testing (rapid): render/parse round trip against an explicit tree-to-AST mapping, metamorphic double rendering, bounded-exhaustive boolean shapes",
     "level_text": "Random search over statement trees and their renderings with a structural round-trip oracle; the precedence sub-property is checked exhaustively up to 6 comparisons. Search, not proof.",
     "level_note": "Trusted: the harness's tree-to-AST mapping (mk/ast.go) and canonical printer (token positions and nil-vs-empty lists are normalised away). Only statements of the grammar the parser implements are generated (no parentheses, no NULL literal, no unary minus).",
@@ -99,7 +99,7 @@ PROPS["C09"] = {
     "rule": "inputs to exactly engine.parseSQL's pipeline (NewTokenScanner -> TokenList -> Parser.Parse) under recover() and a 10 s hang watchdog: (a) bounded-exhaustive: every sequence of 3 tokens over the full vocabulary "
             "(all keywords, identifiers, delimited identifiers, small/20-digit/hex/octal/float/underscore numerals, strings, lone quotes, every punctuation and comment opener; ~130 tokens, split over the shards), thorough: also length 4 over ~50 class representatives; "
             "(b) every kind of truncation (byte and token prefixes) of rapid-generated valid statements; (c) token-level mutations (delete/duplicate/swap/replace/splice); (d) a fixed list of hostile constants and the saved corpus; (e) random token soup, random bytes, "
-            "64 KiB repetition chains; thorough: plus native coverage-guided go test -fuzz on all cores. Non-trivial: input rejected by the parser with >=3 tokens, or a truncation of a valid statement; distinct by token-type sequence + verdict.",
+            "64 KiB repetition chains; thorough: plus native coverage-guided go test -fuzz on all cores. Bounded-exhaustive sweep over all sequences of 1-3 of ~45 characters with unusual case mappings, as word / literal / delimited identifier, alone and inside a statement. Non-trivial: input rejected by the parser with >=3 tokens, or a truncation of a valid statement; distinct by token-type sequence + verdict.",
     "technique": "bounded-exhaustive token enumeration + grammar-based mutation (rapid) + native coverage-guided fuzzing; oracle: returns a statement or an error, no panic, terminates",
     "level_text": "Totality search: exhaustive over short token sequences, random/grammar-mutational over longer inputs, coverage-guided in the thorough tier. Cannot show absence of a crashing input beyond the explored ones.",
     "level_note": "A hang is declared only after 10 s without progress on one input (4 orders of magnitude above normal). Memory exhaustion would surface as a worker death (virtual memory capped), reported as inconclusive unless reproducible. Native fuzzing cannot be seeded; only its saved inputs are reproducible.",
@@ -112,7 +112,7 @@ PROPS["C05"] = {
     "rule": "rapid-generated (table, query) pairs: a table of 2-5 NULL-free columns over all four types with 0-40 rows from small value domains (ties, duplicates, empty tables), and 1-10 SELECTs over it written as SQL text with layout variations: "
             "select list * or 1-4 items (columns, optionally qualified by table name or alias; comparison/boolean expressions; literals; aliases with or without AS), WHERE = OR-of-ANDs of well-typed comparisons (column/literal in either order, column/column), "
             "ORDER BY 0-3 output columns by name, alias or qualified name with ASC/DESC/default, LIMIT and OFFSET in either order with values around the result size. Oracle: reference evaluator (harness/ref); without ORDER BY exact sequence, with ORDER BY a validity predicate "
-            "(length, sort-key tuples of the window, per-key-class sub-multiset) that accepts every order of tied rows; headings compared where the property determines them (column name or alias). Every query additionally goes through Session.ExecQuery - the console's route, which only prints - with standard output captured: the printed table must be the table of the evaluated result; pairs of queries that differ only inside a string literal (letter case, spacing) are generated for this. String values include near-duplicates (trailing / leading blanks, letter case, numeric look-alikes). Non-trivial: WHERE mixing AND and OR over >=3 comparisons, or >=2 sort keys with a tie on the first, or OFFSET/LIMIT cutting through the result, with a filter keeping neither nothing nor everything; distinct by (table, rows, query) JSON.",
+            "(length, sort-key tuples of the window, per-key-class sub-multiset) that accepts every order of tied rows; headings compared where the property determines them (column name or alias). Every query additionally goes through Session.ExecQuery - the console's route, which only prints - with standard output captured: the printed table must be the table of the evaluated result; pairs of queries that differ only inside a string literal (letter case, spacing) are generated for this. String values include near-duplicates (trailing / leading blanks, letter case, numeric look-alikes). LIMIT/OFFSET include the largest integers. Non-trivial: WHERE mixing AND and OR over >=3 comparisons, or >=2 sort keys with a tie on the first, or OFFSET/LIMIT cutting through the result, with a filter keeping neither nothing nor everything; distinct by (table, rows, query) JSON.",
     "technique": "property-based differential testing (rapid) against an independent reference evaluator; tie-tolerant validity predicate for ORDER BY",
     "level_text": "Random search over tables and grammar-derived queries compared with a reference meaning. Search, not proof.",
     "level_note": "Trusted: harness/ref evaluator and model. Only well-typed queries over NULL-free columns (the property's domain); ORDER BY keys are output columns (the engine documents ErrSortFieldNotFound otherwise).",
@@ -150,7 +150,7 @@ PROPS["C08"] = {
             "(INT/BIGINT extremes, 2^53+1, empty strings, NUL/0xFF/invalid UTF-8 bytes, NULLs), rows built to encode to exactly 400 bytes (must be accepted) and 401 bytes (must be refused), wrong-kind values, INT beyond 32 bits; "
             "each statement as SQL text when the dialect can express it, else as direct statement values. After every statement SELECT * must equal the model bit-for-bit (refused statements: error and unchanged table); "
             "the comparison is repeated after flush + cache shrink to 6 pages + scan of another table (eviction, reload from disk), after a clean restart, (one case in three) after USE of another database and back, and (phase 2, unflushed) after crash + recovery. "
-            "Operations include single-row DELETEs; the case ends with one more clean restart after the crash + recovery. Non-trivial: a 400-byte boundary row with at least one reload, or a refused value placed in a column that is not the first; distinct by case JSON.",
+            "Operations include single-row DELETEs; the case ends with one more clean restart after the crash + recovery. One INSERT in three names all columns in a permuted order. Non-trivial: a 400-byte boundary row with at least one reload, or a refused value placed in a column that is not the first; distinct by case JSON.",
     "technique": "property-based round-trip testing (rapid) across four observation points (memory, reloaded page, restart, crash recovery) against a reference model with its own size/validity rules",
     "level_text": "Random search biased to encoding boundaries; the 400/401 boundary is computed by the model's own size formula, not taken from the code. Search, not proof.",
     "level_note": "Trusted: model.EncodedSize / ValidateValue (written from the documented row format), exact Go-value comparison. Multi-row failing statements are C14's business and not generated here.",
@@ -163,7 +163,7 @@ PROPS["C14"] = {
             "and INSERT with column-count mismatch / type mismatch / INT out of range / oversize row where the offending row sits at every index k of n rows, UPDATE with a bad value, UPDATE that becomes oversize only at the k-th matching row, CREATE TABLE whose k-th column the catalog cannot record, DELETE/UPDATE whose WHERE cannot be evaluated for a later row, the table addressed in another letter case (the last three are the implementation's choice to refuse: checked as implication only). "
             "Oracle: an error is returned and every table, row id and the catalog equal the model of the history, immediately, after crash + recovery of the files as they are, and after (optional tick +) clean restart; then a valid insert per table must work. "
             "A deviation that is exactly 'the row operations before the offending one stayed applied' is classified as the listed finding C14-multirow-partial-apply (counted, not raised); anything else is a violation. "
-            "Every shard also runs one fixed huge VALID statement (3000-5500 row INSERT/UPDATE, 7000-12000 row DELETE) under the implication-only oracle (if it fails, nothing stays behind). Further implication-only kind: CREATE TABLE naming a column twice. Non-trivial: multi-row statement with the offending row not first, or unflushed changes present before the failing statement; distinct by case JSON.",
+            "Every shard also runs one fixed huge VALID statement (3000-5500 row INSERT/UPDATE, 7000-12000 row DELETE) under the implication-only oracle (if it fails, nothing stays behind). Further implication-only kind: CREATE TABLE naming a column twice. After a failure on an unknown table half of the cases create that table in the same session, fill it and compare. Non-trivial: multi-row statement with the offending row not first, or unflushed changes present before the failing statement; distinct by case JSON.",
     "technique": "property-based testing (rapid) of failing statements against a reference model, observed at three points (memory, crash recovery, restart)",
     "level_text": "Random search over states and failing statements with the offending row at every position. Search, not proof.",
     "level_note": "Trusted: model validity classification (model.Apply) and prefix semantics. The listed finding is recognised by its exact after-state; a different residue is reported.",
@@ -200,7 +200,7 @@ PROPS["C18"] = {
     "rule": "rapid-generated cases: a session state (database selected and populated with four tables over all four column types holding NULLs, an empty table; no USE yet; failed USE; USE of an empty database; the populated database with the REAL 100 ms flush timer running and statements held open for 130 ms at a page lookup, so that ticks fall due in the middle of statements) and 5-40 statements executed through Session.ExecQuery: "
             "4 in 5 are drawn from the full statement grammar with identifiers from the same pools the schema uses, so that they resolve tables and columns and then apply AVG/COUNT/ORDER BY/comparisons/INSERT/UPDATE values to columns of arbitrary type and to NULLs, "
             "or miss, duplicate or ambiguously name columns; 1 in 5 from a list of 70 targeted statements (aggregates over VARCHAR/BOOLEAN/NULL, ORDER BY over NULLs and ambiguous keys, mistyped comparisons, catalog tables, degenerate DDL). "
-            "Oracle: the call returns nil or an error within 20 s, never panics (recover), the worker never dies (journal), and the session still answers a SELECT afterwards. A low-rate 'bulk' state (700 rows in t2, whole-table statements, 511-1030 row INSERTs). The schema has 23-25 character column names; ~45 targeted statements just outside the grammar (avg(*), count(), aggregates in WHERE/ORDER BY/VALUES); one generated statement in five is mutated at token level. Non-trivial: the statement parses and the engine refuses it (an error path); distinct by (state, SQL text).",
+            "Oracle: the call returns nil or an error within 20 s, never panics (recover), the worker never dies (journal), and the session still answers a SELECT afterwards. A low-rate 'bulk' state (700 rows in t2, whole-table statements, 511-1030 row INSERTs). The schema has 23-25 character column names; ~45 targeted statements just outside the grammar (avg(*), count(), aggregates in WHERE/ORDER BY/VALUES); one generated statement in five is mutated at token level. One statement in 40 carries a condition of 12-200 terms. Non-trivial: the statement parses and the engine refuses it (an error path); distinct by (state, SQL text).",
     "technique": "grammar-based fuzzing of the executor (rapid): type- and name-confused statements against NULL-bearing tables; oracle: no panic / no hang / session survives",
     "level_text": "Random search for crashing statements. Search, not proof.",
     "level_note": "A hang is declared after 20 s for one statement. Parse-level crashes are C09's business (counted here as parse-error).",
@@ -212,7 +212,7 @@ PROPS["C15"] = {
     "rule": "operation sequences over LRUCache.set (clean or already-dirty page, same or fresh page object) / get / markDirty / markClean, run against the real cache and a list-based reference model written from the property's text; after EVERY step the boolean of set, "
             "(page identity, found) of get, resident key set, recency order (read from the internal list), index/list consistency and size <= capacity are compared. (a) bounded-exhaustive: all sequences of depth 5 (thorough: 6) over capacities 1-3 with capacity+1 keys "
             "(alphabet 10-20 operations, split over the shards by first operation); (b) rapid: sequences of 20-400 operations at capacities 1-6 and 200-2000 operations at capacities 5-64. "
-            "Pages are a mix of leaf and internal nodes; one random case in a hundred uses capacities 1025-2500 with run-length insertions. The reference model owns its dirty flags (compared with the page's own flag after every step); the LSN of a dirty transition varies, downwards too. Non-trivial: the sequence performed an eviction that had to skip a dirty entry, or an insertion that was refused; distinct by sequence JSON.",
+            "Pages are a mix of leaf and internal nodes; one random case in a hundred uses capacities 1025-2500 with run-length insertions. The reference model owns its dirty flags (compared with the page's own flag after every step); the LSN of a dirty transition varies, downwards too. Lookups come in bursts of up to 300. Non-trivial: the sequence performed an eviction that had to skip a dirty entry, or an insertion that was refused; distinct by sequence JSON.",
     "technique": "model-based property testing (rapid) + bounded-exhaustive enumeration of operation sequences against a reference LRU",
     "level_text": "Exhaustive to depth 5/6 in small scopes, random beyond. Search, not proof.",
     "level_note": "Trusted: the reference model in the test (list with dirty flags). In-package: reads LRUCache.list and .cache directly.",
@@ -239,7 +239,7 @@ PROPS["C19"] = {
             "(repeats allowed), separator in {',', ';', tab, '|'}, 0-3 pre-existing rows, and a stream of 1-25 records built by class so that the expected outcome of each record is known by construction: valid (numbers in plain / zero-padded / signed / extreme forms, every accepted boolean spelling in any case, "
             "strings containing the separator, quotes, line feeds), \\N in a mapped field, unparsable or out-of-range value for the column type, short record, bare quote in an unquoted field, text after a closing quote, extra fields, oversize string. "
             "Oracle: exactly one ok/error event per record, in record order and of the expected kind; afterwards Fetch returns the pre-existing rows untouched followed by exactly the accepted records in input order, mapped columns holding the converted values, unmapped columns NULL. "
-            "Separators include non-ASCII characters; one import in ten writes the -dest-cols/-src-cols lists with blanks after the commas (refusal allowed, a different import not). After the in-session comparison the importing program exits the way main() does (nothing flushed or closed), start-up recovery runs and the table is compared again; half of the cases run with WAL fsync disabled. Non-trivial: a rejected record strictly between two accepted ones and at least one \\N; distinct by case JSON.",
+            "Separators include non-ASCII characters; one import in ten writes the -dest-cols/-src-cols lists with blanks after the commas (refusal allowed, a different import not). After the in-session comparison the importing program exits the way main() does (nothing flushed or closed), start-up recovery runs and the table is compared again; half of the cases run with WAL fsync disabled. String fields include byte sequences that are not UTF-8. Non-trivial: a rejected record strictly between two accepted ones and at least one \\N; distinct by case JSON.",
     "technique": "property-based testing (rapid) with record streams constructed by class against by-construction expectations (in-package, real storage)",
     "level_text": "Random search over schemas, mappings, separators and record streams. Search, not proof.",
     "level_note": "Trusted: the CSV rendering in the test (RFC 4180 quoting) and Go's encoding/csv for well-formed input. No carriage returns (the stdlib reader rewrites CRLF, which is not mkdb's doing).",
@@ -251,7 +251,7 @@ PROPS["C20"] = {
     "rule": "rapid-generated console sessions fed to the real Terminal (NewTerminal / ReadLine, separate reader and writer): 1-6 statements of 1-10 tokens each ending in ';', with single- and double-quoted literals containing semicolons, the other quote character, spaces, multi-byte runes, comment openers; "
             "line breaks (CR, LF CR, CR LF, with trailing spaces, empty lines) at token boundaries and Enter pressed inside a literal (which the console turns into a space, also right after an in-literal semicolon), several statements per line or one over many lines; the byte stream is delivered bytewise (typed), in one piece (pasted), or in generated chunk sizes 1-40 that split multi-byte runes and escape sequences; "
             "1 in 6 sessions is wrapped in bracketed-paste markers. Oracle: the statements returned by successive ReadLine calls, concatenated, are exactly the entered statements, once each and in order, equal after collapsing white space outside quotes (quoted text byte for byte). "
-            "Literals include non-graphic characters (zero-width joiners, soft hyphen, BOM, private use, emoji ZWJ sequences). Non-trivial: a literal containing ';' and a statement that spans two lines or shares its line; distinct by case JSON.",
+            "Literals include non-graphic characters (zero-width joiners, soft hyphen, BOM, private use, emoji ZWJ sequences). Second part: the console PROGRAM (this test binary in a child mode calling main()) on a pseudo terminal: lines of valid and failing statements are typed, then the database it left behind must hold exactly the valid INSERTs, in order. Non-trivial: a literal containing ';' and a statement that spans two lines or shares its line; distinct by case JSON.",
     "technique": "property-based testing (rapid) of the terminal line discipline with a by-construction oracle (in-package main)",
     "level_text": "Random search over statement lists, layouts and read chunkings. Search, not proof.",
     "level_note": "A line break typed inside a literal becomes a space (the console's documented line joining), the oracle expects exactly that; no backslashes in literals; inputs stay below the terminal's 4096-rune line limit. ErrPasteIndicator is treated as 'line data returned' as x/term documents.",
